@@ -65,6 +65,9 @@ def seedtable():
         if isinstance(db, dict):
             n += 1; det += bool(db.get('detected'))
             conf0 = m.get('confirmed', {}).get('result_at_head') or ''
+            if m.get('disposition') and not db.get('detected'):
+                rows.append('| %s | %s | %s | %s | %s |' % (d, m['change'].replace('|', '\\|'), m['needs_to_manifest'].replace('|', '\\|'), 'passes', 'not reported, by design: ' + m['disposition'])); n -= 1
+                continue
             if 'demo-with-patch=0' in conf0 and not db.get('detected'):
                 res = 'does not manifest on the current HEAD (its own demonstration passes with the change applied); not counted'
                 n -= 1
